@@ -220,6 +220,56 @@ Lemma wc_let_inv : forall codata v vty cbound wbound wbody cont st s st',
 Proof.
   intros codata v vty cbound wbound wbody cont st s st' H Hc. unfold wc_let in H. minv H. rewrite Hc in H. eauto.
 Qed.
+Lemma wc_let_inv_codata : forall codata v vty cbound wbound wbody cont st s st',
+  wc_let codata v vty cbound wbound wbody cont st = Ok (s, st') ->
+  ty_is_codata codata (compile_ty vty) = true ->
+  exists body st1 pb, wbody cont st = Ok (body, st1) /\ cbound (compile_ty vty) st1 = Ok (pb, st') /\
+                      s = CCut pb (compile_ty vty) (CMu CCns (new_id v) body (compile_ty vty)).
+Proof.
+  intros codata v vty cbound wbound wbody cont st s st' H Hc. unfold wc_let in H. minv H. rewrite Hc in H.
+  minv H. apply mret_inv in H. destruct H; subst. eauto 8.
+Qed.
+Lemma cmp_new_inv : forall ccls ty st c st', cmp_new ccls ty st = Ok (c, st') ->
+  exists cls ty0, ccls st = Ok (cls, st') /\ ty = Some ty0 /\ c = CXCase CPrd cls (compile_ty ty0).
+Proof.
+  intros ccls ty st c st' H. unfold cmp_new in H. minv H. minv H.
+  apply mlift_inv in E0. destruct E0 as [E0 ->]. apply expect_ty_inv in E0.
+  apply mret_inv in H. destruct H; subst. eauto 8.
+Qed.
+Lemma wc_new_inv : forall ccls ty cont st s st', wc_new ccls ty cont st = Ok (s, st') ->
+  exists cls ty0, ccls st = Ok (cls, st') /\ ty = Some ty0 /\
+                  s = CCut (CXCase CPrd cls (compile_ty ty0)) (compile_ty ty0) cont.
+Proof.
+  intros ccls ty cont st s st' H. unfold wc_new in H. minv H.
+  apply mlift_inv in E. destruct E as [E ->]. apply expect_ty_inv in E. minv H.
+  apply cmp_new_inv in E0. destruct E0 as [cls [ty0 [E1 [E2 E3]]]]. subst.
+  apply mret_inv in H. destruct H; subst. injection E2 as E2. subst. eauto 8.
+Qed.
+Lemma compile_coclause_inv : forall x ctx body_ty wbody st c st',
+  compile_coclause x ctx body_ty wbody st = Ok (c, st') ->
+  exists ty0 a sta body, body_ty = Some ty0 /\ fresh_covar st = Ok (a, sta) /\
+    wbody (CXVar CCns (new_id a) (compile_ty ty0)) sta = Ok (body, st') /\
+    c = CClause CPrd (new_id x) (compile_ctx ctx ++ [mkcb (new_id a) CCns (compile_ty ty0)]) body.
+Proof.
+  intros x ctx body_ty wbody st c st' H. unfold compile_coclause in H. minv H.
+  apply mlift_inv in E. destruct E as [E ->]. apply expect_ty_inv in E. minv H. minv H.
+  apply mret_inv in H. destruct H; subst. eauto 10.
+Qed.
+Lemma coclauses_with_cons_inv : forall wcf pl x names ctx body r st l st',
+  coclauses_with wcf (FClause pl x names ctx body :: r) st = Ok (l, st') ->
+  exists c st1 rest, compile_coclause x ctx (fterm_type body) (wcf body) st = Ok (c, st1) /\
+                     coclauses_with wcf r st1 = Ok (rest, st') /\ l = c :: rest.
+Proof.
+  intros wcf pl x names ctx body r st l st' H. simpl in H. minv H. minv H. apply mret_inv in H. destruct H; subst.
+  eauto 8.
+Qed.
+Lemma wc_dtor_inv : forall wscrut sty x cargs cont st s st', wc_dtor wscrut sty x cargs cont st = Ok (s, st') ->
+  exists args st1 sty0, cargs st = Ok (args, st1) /\ sty = Some sty0 /\
+    wscrut (CXtor CCns (new_id x) (args ++ [CConsumer cont]) (compile_ty sty0)) st1 = Ok (s, st').
+Proof.
+  intros wscrut sty x cargs cont st s st' H. unfold wc_dtor in H. minv H. minv H.
+  apply mlift_inv in E0. destruct E0 as [E0 ->]. apply expect_ty_inv in E0. eauto 8.
+Qed.
 Lemma wc_call_inv : forall f cargs ret cont st s st', wc_call f cargs ret cont st = Ok (s, st') ->
   exists args ret0, cargs st = Ok (args, st') /\ ret = Some ret0 /\
                     s = CCall (new_id f) (args ++ [CConsumer cont]) (compile_ty ret0).
